@@ -282,6 +282,7 @@ func init() {
 			}
 			items = append(items, Item{Name: "builtin/declared-codes", MaxDevs: -1, Run: c02DeclaredCodeScenario})
 			items = append(items, Item{Name: "undecodable-documents", MaxDevs: -1, Run: c02UndecodableScenario})
+			items = append(items, Item{Name: "custom-schemas-do-not-coerce", MaxDevs: -1, Run: c02CustomTypesScenario})
 			items = append(items, Item{Name: "builtin/URLParts", MaxDevs: -1, Run: reKey("C02", "C20", c20URLParts)})
 			items = append(items, preprocItem("C02", "clean-despite-violation", "issues", "panic"))
 			return append(items, callsItems(tier, "C02", "clean-despite-violation", "depends-on-history", "nested-call-differs", "earlier-result-changed", "panic")...)
